@@ -649,6 +649,22 @@ def r01_8_components(rep, M, rid, shortcut=True):
         if len(ifs) == 1 and ifs[0].orelse and all(any(isinstance(c, ast.Call) and isinstance(c.func, ast.Attribute) and c.func.attr == "append" for c in ast.walk(b))
                                                    for b in (ifs[0].body[0], ifs[0].orelse[0])):
             ok = True
+    if not ok:
+        # without a branch for noise points: still a partition when no point can be noise, i.e. min_samples is 1 at every call (its default and every
+        # in-repo call site), since DBSCAN labels a point -1 only if its neighbourhood (itself included) has fewer than min_samples members
+        uncond = any(isinstance(st, ast.Expr) and isinstance(st.value, ast.Call) and isinstance(st.value.func, ast.Attribute) and st.value.func.attr == "append"
+                     and isinstance(st.value.func.value, ast.Subscript) for lp in loops for st in lp.body)
+        dflt = {a.arg: d for a, d in zip(fn.args.args[len(fn.args.args) - len(fn.args.defaults):], fn.args.defaults)}.get("min_samples")
+        d_ok = isinstance(dflt, ast.Constant) and dflt.value == 1
+        sites_ok = True
+        for q2 in M.functions():
+            for c2 in M.calls_to(q2, fq):
+                v = M.bind_args(fq, c2).get("min_samples")
+                if v is not None and not (isinstance(v, ast.Constant) and v.value == 1):
+                    sites_ok = False
+        if uncond and d_ok and sites_ok:
+            rep.ok(rid, "geometry.get_clusters: every element is appended to the group of its label; no point can be noise because min_samples is 1 at every call")
+            return
     if ok:
         rep.ok(rid, "geometry.get_clusters: every element goes to exactly one group (noise points as singletons)")
     else:
@@ -942,8 +958,16 @@ def r01_11(rep, M, rid):
         # the guard: cluster != chosen
         guards = [t for t, pol in conds if isinstance(t, ast.If) and pol is True and isinstance(t.test, ast.Compare)
                   and isinstance(t.test.ops[0], (ast.NotEq, ast.IsNot)) and norm(inner.target) in (norm(t.test.left), norm(t.test.comparators[0]))]
-        multi = [t for t, pol in conds if isinstance(t, ast.If) and pol is True and "len(" in norm(t.test) and lst and lst in norm(t.test)
-                 and isinstance(t.test, ast.Compare) and isinstance(t.test.ops[0], ast.Gt) and norm(t.test.comparators[0]) == "1"]
+        # the removal has to run for every atom that is in two or more clusters; for an atom in exactly one cluster it removes nothing (the chosen cluster
+        # is that one), so a guard is only required not to exclude len >= 2: `> 1`, `>= 2`, `>= 1`, `> 0`, `!= 0`, `!= 1` - or no guard at all
+        lenguards = [t for t, pol in conds if isinstance(t, ast.If) and pol is True and "len(" in norm(t.test) and lst and lst in norm(t.test) and isinstance(t.test, ast.Compare)]
+
+        def admits_two_or_more(t):
+            c = t.test.comparators[0]
+            k = c.value if isinstance(c, ast.Constant) and isinstance(c.value, int) else None
+            op = t.test.ops[0]
+            return k is not None and ((isinstance(op, ast.Gt) and k <= 1) or (isinstance(op, ast.GtE) and k <= 2) or (isinstance(op, ast.NotEq) and k in (0, 1)))
+        multi = [True] if not lenguards or all(admits_two_or_more(t) for t in lenguards) else []
         chosen = None
         if guards:
             g = guards[0].test
@@ -951,7 +975,8 @@ def r01_11(rep, M, rid):
         chosen_ok = False
         if chosen:
             defs = [d for d in ast.walk(outer) if isinstance(d, ast.Assign) and norm(d.targets[0]) == chosen]
-            chosen_ok = bool(defs) and all(norm(d.value) == f"{lst}[0]" or (isinstance(d.value, ast.Name) and any(
+            chosen_ok = bool(defs) and all((isinstance(d.value, ast.Subscript) and norm(d.value.value) == lst and isinstance(d.value.slice, ast.Constant)
+                                            and d.value.slice.value in (0, 1, -1)) or (isinstance(d.value, ast.Name) and any(
                 isinstance(lp, ast.For) and norm(lp.target) == d.value.id and norm(lp.iter) == lst for lp in ast.walk(outer))) for d in defs)
         atom_ok = atom == (tv[0] if tv else None)
         if full_inner and guards and chosen_ok and multi and atom_ok:
